@@ -75,6 +75,10 @@ pub struct StreamCase {
     /// read with a parser that rejects part of the control fields (`Picky`): a rejected packet is consumed all the same
     #[serde(default)]
     pub picky: bool,
+    /// after this many bytes one read fails with ErrorKind::Interrupted (the data behind it stays available): the reader may
+    /// report the error, or carry on correctly - it may not return anything but the packets that were sent
+    #[serde(default)]
+    pub interrupt_at: Option<usize>,
 }
 
 pub fn check_stream(c: &StreamCase) -> CheckResult {
@@ -83,6 +87,7 @@ pub fn check_stream(c: &StreamCase) -> CheckResult {
     let data: Vec<u8> = packets.concat();
     let total = data.len();
     let mut tr = PacketTransport { source: Peer::preloaded(data, c.chunks.clone(), c.eof) };
+    tr.source.interrupt_at = c.interrupt_at;
     let mut end = 0usize;
     let mut start;
     let mut log_from = 0usize;
@@ -104,6 +109,10 @@ pub fn check_stream(c: &StreamCase) -> CheckResult {
             }
         }
         log_from = tr.source.log.len();
+        // the interrupted read may be reported as an error: nothing further is demanded of this stream
+        if complete && res.is_err() && c.interrupt_at.map(|at| at >= start && at < end).unwrap_or(false) {
+            return Ok(());
+        }
         if complete && foreign {
             // outside the parser's reply set: an error, and the packet is consumed exactly like any other
             if let Ok(RawFrame(f)) = &res {
@@ -123,6 +132,8 @@ pub fn check_stream(c: &StreamCase) -> CheckResult {
                     return Err(Violation::new("stream", "C04 kind=cursor-not-at-boundary".to_string(), format!("after packet {i} the reader consumed {} bytes, the packet ends at {end}", tr.source.delivered()), input));
                 }
             }
+            // the interrupted read may be reported as an error: nothing further is demanded of this stream
+            (true, Err(_)) if c.interrupt_at.map(|at| at >= start && at < end).unwrap_or(false) => return Ok(()),
             (true, Err(e)) => return Err(Violation::new("stream", "C04 kind=complete-packet-rejected".to_string(), format!("packet {i} ({}) is complete in the stream but read_packet failed: {e}", clip(&hex(p), 120)), input)),
             (false, Ok(RawFrame(f))) => return Err(Violation::new("stream", "C04 kind=packet-from-truncated-stream".to_string(), format!("the stream ends after {} bytes, inside packet {i} (bytes {start}..{end}), yet read_packet returned {}", c.eof.unwrap(), clip(&hex(&f), 200)), input)),
             (false, Err(_)) => return Ok(()),
@@ -205,7 +216,7 @@ pub fn case_from_fuzz(data: &[u8]) -> Option<StreamCase> {
     }
     let total: usize = packets.iter().map(|p| p.len() / 2).sum();
     let eof = if eof_sel % 3 == 0 { Some(eof_sel as usize * (total + 1) / 256) } else { None };
-    Some(StreamCase { packets, chunks, eof, picky: false })
+    Some(StreamCase { packets, chunks, eof, picky: false, interrupt_at: None })
 }
 
 /// The acknowledgement read inside `write_packet_with_ack` is a read like any other: it consumes precisely the packet the
@@ -340,7 +351,7 @@ pub fn run(tier: Tier) -> i32 {
         for mask in 0..masks {
             let eofs: Vec<Option<usize>> = if mask % 64 == 0 || tier == Tier::Thorough { std::iter::once(None).chain((0..=n).map(Some)).collect() } else { vec![None, Some((mask as usize * 7) % (n + 1))] };
             for eof in eofs {
-                let c = StreamCase { packets: hexes.clone(), chunks: partition_chunks(n, mask), eof, picky: mask % 3 == 1 };
+                let c = StreamCase { packets: hexes.clone(), chunks: partition_chunks(n, mask), eof, picky: mask % 3 == 1, interrupt_at: if mask % 5 == 2 { Some(mask as usize % n) } else { None } };
                 let nt = classify(&c, st);
                 st.case(nt, fnv(&serde_json::to_vec(&c).unwrap()));
                 st.class("exhaustive-partition");
@@ -414,12 +425,18 @@ pub fn run(tier: Tier) -> i32 {
         ];
         let strat = (proptest::collection::vec(packet, 1..6), chunks, proptest::option::weighted(0.35, any::<u32>()), prop::bool::weighted(0.4)).prop_map(|(packets, chunks, eof, picky)| {
             let total: usize = packets.iter().map(|p| p.len() / 2).sum();
-            StreamCase { packets, chunks, eof: eof.map(|e| (e as u64 * (total as u64 + 1) >> 32) as usize), picky }
+            let eof = eof.map(|e| (e as u64 * (total as u64 + 1) >> 32) as usize);
+            // a fifth of the streams without an early end have one interrupted read somewhere
+            let interrupt_at = if eof.is_none() && total > 0 && packets.len() % 5 == 1 { Some((total * 7 / 11 + chunks.len()) % total) } else { None };
+            StreamCase { packets, chunks, eof, picky, interrupt_at }
         });
         ctx.proptest(seed, nrand / 16, &strat, st, |c, st| {
             let nt = classify(c, st);
             st.case(nt, fnv(&serde_json::to_vec(c).unwrap()));
             st.class("random-sequence");
+            if c.interrupt_at.is_some() {
+                st.class("one-read-interrupted");
+            }
             if c.picky {
                 st.class("read-with-a-rejecting-parser");
                 if c.packets.iter().any(|p| p.len() > 520 && u8::from_str_radix(&p[2..4], 16).map(|i| i & 1 == 1).unwrap_or(false)) {
@@ -457,7 +474,7 @@ pub fn run(tier: Tier) -> i32 {
     stats.exhaustive_parts = vec!["writer/reader header agreement for every body length 0..=65535".into(), "all 2^(n-1) chunkings of 4 short packet concatenations (8..14 bytes)".into()];
     ctx.finish(
         stats,
-        "the acknowledgement read of write_packet_with_ack (answers with data blocks of 0..65535 bytes, canonical and ff-form headers, negative answers: consumed precisely, the next packet intact); header sweep over all body lengths (writer output vs reference header; reader on one chunk and byte-wise header); all chunkings of short concatenations x end-of-stream positions; proptest sequences of 1..5 packets (reference-encoded canonical commands, blobs with body lengths around 0/254/255/65535, extended-form headers) x chunk schedules (all-at-once, 1-byte, random partitions; a Pending wake-up between chunks) x end-of-stream offsets x the parser handed to read_packet (one that returns the frame, or one that rejects every control field with an odd instruction byte the way the derived reply enums reject foreign ones). Oracle: frames returned = the packets in order (a rejected packet yields an error and is consumed like any other); after packet i the read cursor is exactly at its end and no read asked beyond it; a stream ending inside a packet or at a boundary yields an error. non-trivial = (>= 2 packets and a chunk boundary inside a header) or an extended-length packet; distinct by (packets, schedule, eof)",
+        "the acknowledgement read of write_packet_with_ack (answers with data blocks of 0..65535 bytes, canonical and ff-form headers, negative answers: consumed precisely, the next packet intact); header sweep over all body lengths (writer output vs reference header; reader on one chunk and byte-wise header); all chunkings of short concatenations x end-of-stream positions; proptest sequences of 1..5 packets (reference-encoded canonical commands, blobs with body lengths around 0/254/255/65535, extended-form headers) x chunk schedules (all-at-once, 1-byte, random partitions; a Pending wake-up between chunks) x end-of-stream offsets x one read failing with ErrorKind::Interrupted (the reader may report it or carry on correctly, never return other bytes) x the parser handed to read_packet (one that returns the frame, or one that rejects every control field with an odd instruction byte the way the derived reply enums reject foreign ones). Oracle: frames returned = the packets in order (a rejected packet yields an error and is consumed like any other); after packet i the read cursor is exactly at its end and no read asked beyond it; a stream ending inside a packet or at a boundary yields an error. non-trivial = (>= 2 packets and a chunk boundary inside a header) or an extended-length packet; distinct by (packets, schedule, eof)",
         &["RawFrame (harness ZvtParser copying its input) makes read_packet return what the transport framed", "in-memory streams never produce short writes"],
         false,
     )
